@@ -165,6 +165,19 @@ INPUT_DENSE = int(os.environ.get("VERIF_INPUT_DENSE", "400"))
 BFS_DEPTH_CAP = int(os.environ.get("VERIF_BFS_DEPTH_CAP", "0"))
 
 
+# every case is run while the calling thread is HANDLING an exception (inside an `except` block, as in `try: open(cache) / except
+# FileNotFoundError: <library calls>`): sys.exc_info() is non-empty on entry to every library call.  Set in the process-with-a-past child.
+IN_HANDLER = bool(os.environ.get("VERIF_IN_HANDLER"))
+
+
+def open_descriptors():
+    """the file descriptors this process holds (None where /proc is not available)"""
+    try:
+        return sorted(int(x) for x in os.listdir("/proc/self/fd"))
+    except (OSError, ValueError):
+        return None
+
+
 def _on_cpu_limit(signum, frame):
     raise CaseTimeout()
 
@@ -180,6 +193,11 @@ def _guarded(f, *a):
         return f(*a)
     signal.setitimer(signal.ITIMER_VIRTUAL, CASE_CPU_LIMIT)
     try:
+        if IN_HANDLER:
+            try:
+                raise LookupError("the caller of the library is busy handling this exception")
+            except LookupError:
+                return f(*a)
         return f(*a)
     finally:
         signal.setitimer(signal.ITIMER_VIRTUAL, 0)
@@ -256,6 +274,9 @@ def _work_inputs(args):
     acc = _Acc()
     ch = part.chunk
     redo = []
+    import gc
+    gc.collect()
+    fds0 = open_descriptors()
     for idx, case in enumerate(part.gen()):
         if ((idx // ch) + seed) % nshards != shard:
             continue
@@ -278,6 +299,20 @@ def _work_inputs(args):
     lv = _libstate_viol()
     if lv is not None:
         acc.add(10**12 + shard, ("library-state-after-shard", shard), (1, "!", None, [lv]), seed)
+    gc.collect()
+    fds1 = open_descriptors()
+    if fds0 is not None and fds1 is not None and len(fds1) > len(fds0) and not acc.aborted:
+        extra = [fd for fd in fds1 if fd not in fds0]
+        what = []
+        for fd in extra[:3]:
+            try:
+                what.append(os.readlink(f"/proc/self/fd/{fd}"))
+            except OSError:
+                what.append("?")
+        acc.add(10**12 + 10**6 + shard, ("descriptors-after-shard", shard),
+                (1, "!", None, [Viol("file-descriptors-left-open", f"after the cases of this shard (and a garbage collection) the process holds {len(fds1)} file "
+                                                                   f"descriptors, {len(fds0)} before: {len(extra)} left open by calls that have returned, e.g. {what} "
+                                                                   f"- a long-running caller runs out of descriptors and every later read or write fails")]), seed)
     # determinism self-test: the same case must give the same observation twice
     for idx, case, res in (redo[:3] if acc.aborted else redo):
         if res[1] == "non-termination":
